@@ -2,7 +2,10 @@ package props
 
 import (
 	"fmt"
+	"regexp"
 	"strings"
+	"sync"
+	"time"
 
 	"verifengine/core"
 	"verifengine/x86ref"
@@ -302,9 +305,79 @@ func c07Scenarios(tier string) []*core.Scenario {
 	return scs
 }
 
+var c07SigRe = regexp.MustCompile(`[0-9]+|'[^']*'|"[^"]*"|\b[A-Z][A-Z0-9]{1,7}\b`)
+
+// c07CLI: one representative statement per distinct diagnostic message the in-process run
+// produces, re-run through the REAL command: the diagnostic must be visible there as well (the
+// command configures its own logger; the worker only mirrors that configuration).
+func c07CLI(r *core.Run, tier string) {
+	t0 := time.Now()
+	p := r.Cfg.Pool
+	base := "pre:\n" + sentinelLine(0) + sentinelLine(1)
+	reps := map[string]string{}
+	var order []string
+	for _, mn := range grammarMnemonics {
+		for ki := -1; ki < len(c07Kinds); ki++ {
+			var ks []opKind
+			if ki >= 0 {
+				ks = []opKind{c07Kinds[ki]}
+			}
+			if strings.HasPrefix(mn, "RES") && ki >= 0 && c07Kinds[ki].name == "imm32" {
+				continue
+			}
+			cs := c07Case(mn, ks)
+			res := p.Exec(cs.Srcs[0])
+			if res.Died || res.Panic != "" {
+				continue
+			}
+			if !core.ReportsDiag(res, p.Exec(base)) {
+				continue
+			}
+			lines := core.ErrLines(res)
+			sig := "hard"
+			if len(lines) > 0 {
+				sig = c07SigRe.ReplaceAllString(lines[0], "#")
+			} else if res.ParseErr != "" {
+				sig = "parse_error"
+			}
+			if _, ok := reps[sig]; !ok {
+				reps[sig] = cs.Srcs[0]
+				order = append(order, sig)
+			}
+		}
+	}
+	cliBase := p.CLI(base, nil, false)
+	var mu sync.Mutex
+	var wg sync.WaitGroup
+	sem := make(chan struct{}, p.N)
+	var n int64
+	for _, sig := range order {
+		wg.Add(1)
+		sem <- struct{}{}
+		go func(sig, src string) {
+			defer wg.Done()
+			defer func() { <-sem }()
+			c := p.CLI(src, nil, false)
+			mu.Lock()
+			n++
+			mu.Unlock()
+			if !core.ReportsDiag(c, cliBase) {
+				r.AddFail("cli_diagnostics", "signature "+sig, map[string]string{"sig": sig}, []string{src},
+					core.Fail{Facet: "cli_diagnostic_lost", Dev: "silent_in_cli", Detail: fmt.Sprintf("in process the statement is diagnosed (%s); the real command prints no diagnostic and exits %d", sig, c.ExitCode)})
+			}
+			r.AddNT("clisig|" + sig)
+		}(sig, reps[sig])
+	}
+	wg.Wait()
+	r.AddSample(map[string]any{"cli_diagnostic_representative": order[0]})
+	r.AddCustom("cli_diagnostics", "one representative statement for each distinct diagnostic message observed in process over the arity<=1 space, re-run through the real command: a diagnostic must be visible there too",
+		map[string]any{"distinct_messages": len(order)}, n+1, n, n, n, 1, true, time.Since(t0).Seconds())
+}
+
 func init() {
 	register(&Property{
 		ID:        "C07",
+		Custom:    c07CLI,
 		Scenarios: c07Scenarios,
 		Assumptions: []string{
 			"a diagnostic is: non-zero exit, a GOSK message, a parse error, a log line at warning level or above, or any log line whose message starts with error/err:/warning/warn, attributable to the statement (differential against the same program without it)",
